@@ -316,6 +316,23 @@ func main() {
 			}
 		}
 	}
+	// large documents (several MiB of JSON): a valid one, and the same with one defect at its end
+	if len(bases) > 0 {
+		b := bases[0]
+		nDev := 12000
+		if r.Thorough() {
+			nDev = 60000
+		}
+		var devs []any
+		for i := 0; i < nDev; i++ {
+			devs = append(devs, map[string]any{"name": fmt.Sprintf("dev%05d", i), "containerEdits": map[string]any{"env": []any{fmt.Sprintf("INDEX=%d", i), "PAD=" + strings.Repeat("x", 64)}}})
+		}
+		good := gen.Apply(b.Tree, gen.Mutation{Class: "large-document", Path: gen.Path{"devices"}, Op: "set", Value: devs})
+		addDoc(b.Name, []gen.Mutation{{Class: "large-document:valid"}}, good)
+		devs2 := append(append([]any{}, devs...), map[string]any{"name": "last", "containerEdits": map[string]any{"env": []any{"A=b"}}, "unknownMember": true})
+		bad := gen.Apply(b.Tree, gen.Mutation{Class: "large-document", Path: gen.Path{"devices"}, Op: "set", Value: devs2})
+		addDoc(b.Name, []gen.Mutation{{Class: "large-document:defect-in-last-device"}}, bad)
+	}
 	if r.Replay != "" {
 		var c Case
 		r.LoadReplay(&c)
